@@ -85,9 +85,13 @@ def check_routes(out, packed, bits, tag):
 def check_pack(out, t, bits, tag):
     """round trip + density + payload content, for one uint8 tensor t with values < 2**bits"""
     vpi = 8 // bits
+    t_keep, t_ver = t.clone(), t._version
     p = cut(PackedTensor.pack, t, bits)
     if isinstance(p, Raised):
         return out.fail(f"{tag}/pack/raises:{p.type}", p.text)
+    if not torch.equal(t, t_keep) or t._version != t_ver:
+        out.fail(f"{tag}/pack/modified-source", "pack() modified the tensor it was given (the round trip must return the ORIGINAL tensor)")
+        t = t_keep
     payload = p._data
     want_rows = -(-t.shape[0] * bits // 8)
     if type(payload) is not torch.Tensor or payload.dtype != torch.uint8 or tuple(payload.shape) != (want_rows, *t.shape[1:]):
@@ -102,7 +106,10 @@ def check_pack(out, t, bits, tag):
         return out.fail(f"{tag}/unpack/raises:{u.type}", u.text)
     if u.dtype != torch.uint8 or tuple(u.shape) != tuple(t.shape) or not torch.equal(u, t):
         out.fail(f"{tag}/roundtrip", f"unpack(pack(t)) != t (R={t.shape[0]}, R mod {vpi} = {t.shape[0] % vpi})")
+    payload_keep = payload.clone()
     check_routes(out, payload, bits, tag)
+    if not torch.equal(payload, payload_keep):
+        out.fail(f"{tag}/unpack/modified-payload", "an unpack route modified the payload it read")
     return p
 
 
